@@ -2,6 +2,7 @@ package props
 
 import (
 	"bytes"
+	"context"
 	"encoding/json"
 	"errors"
 	"fmt"
@@ -30,7 +31,7 @@ type BatchCase struct {
 	M        int    `json:"m"`
 	Priority []int  `json:"priority"`  // release priority per request token (calls are released by the smallest token priority they carry)
 	FailTok  int    `json:"fail_tok"`  // the HTTP call carrying this token fails (-1: none)
-	FailKind string `json:"fail_kind"` // transport | status500 | notjson | errors | errors-null-entry
+	FailKind string `json:"fail_kind"` // transport | status500 | notjson | errors | errors-null-entry | ctx-cancelled
 	Files    []int  `json:"files"`     // tokens whose request carries an upload (sent as multipart, one call each)
 	// HoldFirst: the first HoldFirst chunk results ready for the reducer are held back until a later one is ready too
 	// (the reducer does not have to see results in completion order; steered at the verif hook point amr.worker.sendRes)
@@ -116,6 +117,9 @@ func (bt *batchTransport) RoundTrip(req *http.Request) (*http.Response, error) {
 		switch bt.c.FailKind {
 		case "transport":
 			return nil, fake.TransportError(fmt.Sprint(tokens))
+		case "ctx-cancelled":
+			// what an http client reports for a call whose context ended while it was in flight
+			return nil, context.Canceled
 		case "status500":
 			return jsonResp(500, []byte(`{"errors":[{"message":"boom"}]}`)), nil
 		case "notjson":
@@ -361,7 +365,7 @@ func c11Labels(c *BatchCase) []string {
 
 func TestC11(t *testing.T) {
 	rec := ev.Get("C11")
-	rec.Rule = "N sub-requests (0..60; 0..200 thorough) x max batch size m (1..16; 1..40 thorough) x completion order of the concurrent HTTP calls (a fake RoundTripper parks every call and releases them by drawn priorities) x optional failing call (transport error, 500, non-JSON, GraphQL errors) x optional upload-carrying requests; x optionally the first 1..2 ready chunk results held back until a later one is ready (verif hook point in AsyncMapReduce); plus the exhaustive grid N 0..40 x m 1..12 x {FIFO, LIFO, first-result-held} (TestC11Grid). non-trivial = N > m (chunked); distinct by hash(case)"
+	rec.Rule = "N sub-requests (0..60; 0..200 thorough) x max batch size m (1..16; 1..40 thorough) x completion order of the concurrent HTTP calls (a fake RoundTripper parks every call and releases them by drawn priorities) x optional failing call (transport error, 500, non-JSON, GraphQL errors, null error entry, context.Canceled) x optional upload-carrying requests; x optionally the first 1..2 ready chunk results held back until a later one is ready (verif hook point in AsyncMapReduce); plus the exhaustive grid N 0..40 x m 1..12 x {FIFO, LIFO, first-result-held} (TestC11Grid). non-trivial = N > m (chunked); distinct by hash(case)"
 	maxN, maxM := 60, 16
 	if ev.Thorough() {
 		maxN, maxM = 200, 40
@@ -378,7 +382,7 @@ func TestC11(t *testing.T) {
 		c.Priority = rapid.Permutation(seq(c.N)).Draw(t, "prio")
 		if c.N > 0 && rapid.IntRange(0, 3).Draw(t, "fail") == 0 {
 			c.FailTok = rapid.IntRange(0, c.N-1).Draw(t, "failtok")
-			c.FailKind = rapid.SampledFrom([]string{"transport", "status500", "notjson", "errors", "errors-null-entry"}).Draw(t, "failkind")
+			c.FailKind = rapid.SampledFrom([]string{"transport", "status500", "notjson", "errors", "errors-null-entry", "ctx-cancelled"}).Draw(t, "failkind")
 		}
 		if c.N > 0 && rapid.IntRange(0, 4).Draw(t, "files") == 0 {
 			nf := rapid.IntRange(1, minInt(3, c.N)).Draw(t, "nfiles")
